@@ -46,8 +46,17 @@ func doReset(o Obj, kind int, cfg Cfg) {
 		if x.pv != nil {
 			if kind == rkReset {
 				x.pv.Reset()
-			} else {
+			} else if kind == rkInit {
 				x.pv.Init(x.pv.Contacts.Vals)
+			} else {
+				// the caller alternates between two contact arrays of its own (never cleaned by
+				// the harness): A, B, A, ...
+				cur := x.pv.Contacts.Vals
+				if x.alt == nil {
+					x.alt = mkContacts(cfg.ContactCap)
+				}
+				x.pv.Init(x.alt)
+				x.alt = cur
 			}
 		}
 	case *contactsObj:
